@@ -476,6 +476,36 @@ func ruleL16(p *Prog, r *Report) {
 						pairs = []pair{{stateAssume{root: true, inlined: !to}, stateAssume{root: true, inlined: to}}}
 					}
 				})
+				if pairs != nil {
+					// the re-based size and the inlined flag change together: no exit (not even an error exit) between them
+					var flag ssa.Instruction
+					eachInstr(f, func(y ssa.Instruction) {
+						if s2, ok := y.(*ssa.Store); ok {
+							if fr, ok := asFieldAddr(s2.Addr); ok && fr.Field == "inlined" && sameValue(fr.Base, ownerV) {
+								flag = y
+							}
+						}
+					})
+					if flag != nil {
+						first, second := ssa.Instruction(in), flag
+						if canReach(f, flag, func(z ssa.Instruction) bool { return z == ssa.Instruction(in) }, nil) != nil {
+							first, second = flag, in
+						}
+						var exit ssa.Instruction
+						reachFrom(f, first, nil, func(z ssa.Instruction) bool {
+							if exit != nil || z == second {
+								return true
+							}
+							if _, ok := z.(*ssa.Return); ok {
+								exit = z
+								return true
+							}
+							return false
+						})
+						n++
+						r.Decide(exit == nil, R, "rebase-with-flag:"+p.Name(f), p.InstrPos(in), "the size is re-based and the inlined flag flipped without an exit in between", "the function can return (on an error of the storage) after re-basing the size but before flipping the inlined flag, or the other way round: the slab then reports the prefix of a state it is not in, and a retry re-bases twice")
+					}
+				}
 				switch {
 				case pairs != nil:
 				case siblingOps[f.Name()] && recvName(f) == k.owner:
